@@ -175,6 +175,9 @@ class Ten:
         return "Ten%s" % (self.shape,)
 
 
+INF = 10 ** 9
+
+
 class FVal:
     """a value formatted into an f-string"""
     def __init__(self, value, spec="", conv=-1, pct=False):
@@ -659,6 +662,8 @@ class TenSym(PySym):
             d = dotted(n)
             if d in ("np.pi", "math.pi", "numpy.pi"):
                 return PI
+            if d in ("np.inf", "numpy.inf", "math.inf"):
+                return INF      # "no limit": larger than every size of the model worlds (min(i + INF, n) = n, slice(a, INF) = a:)
             if d in ("np.newaxis",):
                 return None
             if d in ("np.float64", "np.float32", "np.double", "np.int32", "np.int64", "float", "int"):
@@ -688,11 +693,15 @@ class TenSym(PySym):
                     return prod(base.shape)
                 if n.attr == "dtype":
                     return "<dtype>"
+                if n.attr == "flags":
+                    return {"WRITEABLE": True, "C_CONTIGUOUS": True, "OWNDATA": not base.view}
                 if n.attr == "ctypes":
                     # .ctypes.data: the address of the first element (two arrays that start at the same element of the same memory compare equal)
                     return Obj(data=base.data.address() if isinstance(base.data, ViewData) else ("addr", id(base.data), 0))
             if base is None:
                 raise Raised("the analysed path raises: AttributeError ('NoneType' object has no attribute %r)" % n.attr, "AttributeError(%r)" % n.attr)
+            if isinstance(base, slice) and n.attr in ("start", "stop", "step"):
+                return getattr(base, n.attr)
             raise Unsupported("attribute %s" % src(n))
         if isinstance(n, ast.UnaryOp):
             v = self.ex(n.operand)
@@ -890,6 +899,9 @@ class TenSym(PySym):
             res = Ten(sh, out)
             res.isbool = True
             return res
+        if isinstance(op, (ast.In, ast.NotIn)) and isinstance(b, Obj) and callable(b.__dict__.get("_contains")):
+            r = bool(b._contains(self.pyval(a)))
+            return r if isinstance(op, ast.In) else not r
         if isinstance(op, (ast.In, ast.NotIn)) and isinstance(b, (dict, frozenset, list, tuple)):
             a_ = self.pyval(a)
             if isinstance(a_, (Rat, Ten)):
@@ -1150,6 +1162,8 @@ class TenSym(PySym):
                     r_.view = False
                     return r_
                 raise Unsupported("array method %s" % m)
+            if isinstance(recv, Obj) and m == "__getitem__" and callable(recv.__dict__.get("_getitem")) and len(n.args) == 1:
+                return recv._getitem(recv, self.pyval(self.ex(n.args[0])))
             if isinstance(recv, Obj):
                 cm = recv.__dict__.get("_methods") or {}
                 if m in cm and m not in recv.__dict__:
@@ -1663,6 +1677,8 @@ class TenSym(PySym):
                 return v.shape[0]
             if isinstance(v, (list, tuple, str)):
                 return len(v)
+            if isinstance(v, Obj) and "n_frames" in (v.__dict__.get("_getters") or {}):
+                return v._getters["n_frames"](v)
             if isinstance(v, Obj) and hasattr(v, "n_frames"):
                 return v.n_frames
             if isinstance(v, TText):
@@ -2143,6 +2159,9 @@ class TenSym(PySym):
                 return
             if isinstance(base, dict):
                 base[self.pyval(self.ex(target.slice))] = v
+                return
+            if isinstance(base, Obj) and callable(base.__dict__.get("_setitem")):
+                base._setitem(base, self.key(target.slice), v)     # a modelled container (an on-disk array) stores it
                 return
             if not isinstance(base, Ten):
                 raise Unsupported("store into %s" % type(base).__name__)
